@@ -6,16 +6,18 @@ RULE = ("TLC explores the damage/restore/volume/Verify/Repair graph of Par2Archi
         "C14_SuccessIsFixpoint, C14_FailureKeepsOrRestores, C14_VerifyPure on every transition; every Verify/Repair edge "
         "of the closed graph is replayed on the real code (successful repairs are followed by a real Verify and a real "
         "second Repair whose write calls are logged through the H2 file-system hook); seeded random walks / large sets "
-        "are judged with the same clauses.")
+        "are judged with the same clauses; convergence includes the within-capacity clauses (once the recovery files present suffice, Repair succeeds).")
 ASSUME = ["every disk state of the closed graph is reachable by damage events alone, so replaying each edge from a "
           "materialised source state covers every finite history (no state survives between gopar calls except the directory)"]
 
 
 def run(ctx):
     def once():
-        return archive.combine(archive.small_scope(ctx, ["C14."]),
-                               archive.big_sets(ctx, ["C14."], "c14"),
-                               archive.par1_family(ctx, ["C14."]))
+        # "repeated attempts as more recovery files arrive converge to the original data": once the recovery files
+        # present suffice, Repair must succeed - the within-capacity clauses are part of convergence
+        return archive.combine(archive.small_scope(ctx, ["C14.", "C01.within_capacity"]),
+                               archive.big_sets(ctx, ["C14.", "C01.within_capacity"], "c14"),
+                               archive.par1_family(ctx, ["C14.", "C04.within_capacity"]))
     events, verdicts = once()
     ctx.samples = archive.pick_samples(events)
     return ctx.finish(verdicts, events, RULE, ASSUME, rerun=once)
